@@ -98,6 +98,8 @@ def _enc_cfgs(tier):
         forks = c.family in ("hamming", "rm")  # inverse_encode / calculate_syndrome fork (correction loop, nearest-codeword search)
         heavy = (c.family == "rm" and (k > 3 or n > 8)) or (c.family == "hamming" and n > 8)
         out += codes.with_variants([c], ["forward:B2", "forward:B21", "forward:B3", "forward:Bb"])
+        if codes.rm_search_heavy(c, 4) or (c.family == "hamming" and n > 16):
+            continue
         for which in ("inverse", "syndrome"):
             if which == "syndrome" and c.family == "hamming":
                 forks_here = False
